@@ -117,6 +117,9 @@ func TestVerifReplay(t *testing.T) {
 		for _, m := range verifrt.Mismatch {
 			t.Logf("VERIF-REPLAY mismatch: %%s", m)
 		}
+		for _, l := range verifrt.Reached {
+			t.Logf("VERIF-REPLAY reached: %%s", l)
+		}
 		for _, l := range verifrt.Failed {
 			t.Logf("VERIF-REPLAY failed: %%s", l)
 			t.Fail()
@@ -269,6 +272,9 @@ func check(args []string) int {
 
 	exit := 0
 	inconclusive := []string{}
+	nativeBins := map[string]string{}
+	valTmp, _ := os.MkdirTemp("", "verif-validate-")
+	defer os.RemoveAll(valTmp)
 	var results []*symgo.Result
 	var hruns []harnessRun
 	violations := 0
@@ -411,6 +417,41 @@ func check(args []string) int {
 				fmt.Printf("  inputs: %s\n", strings.Join(ds, " "))
 			}
 		}
+		// translator validation: random concrete scripts through the engine and through the native build
+		if k := validationRuns(*tier); k > 0 && len(res.Violations) == 0 {
+			bin, ok := nativeBins[h.Pkg]
+			if !ok {
+				var funcs []string
+				seenFn := map[string]bool{}
+				for _, h2 := range spec.Harnesses {
+					if h2.Pkg == h.Pkg && !seenFn[h2.Func] && e.FindFunc(h2.Pkg, h2.Func) != nil {
+						funcs = append(funcs, h2.Func)
+						seenFn[h2.Func] = true
+					}
+				}
+				sub := filepath.Join(valTmp, sanitizeFile(h.Pkg))
+				os.MkdirAll(sub, 0o755)
+				var berr error
+				bin, berr = buildNativeBinary(h.Pkg, pkgName, funcs, sub)
+				if berr != nil {
+					inconclusive = append(inconclusive, fmt.Sprintf("%s: %v", h.Func, berr))
+				}
+				nativeBins[h.Pkg] = bin
+			}
+			if bin != "" {
+				t0 := time.Now()
+				vr := validateHarness(e, f, h, ts, bin, k, int64(seed)+1, valTmp)
+				hr.Validation = &vr
+				fmt.Printf("translator validation %s: %d random concrete scripts run in engine and natively, %d agree, %d discarded by assumptions (%.1fs)\n",
+					h.Func, vr.Runs, vr.Agree, vr.Discarded, time.Since(t0).Seconds())
+				for _, m := range vr.Mismatches {
+					inconclusive = append(inconclusive, fmt.Sprintf("ENGINE-MISMATCH %s: concrete run differs between engine and native build: %s", h.Func, m))
+				}
+				for _, m := range vr.Problems {
+					inconclusive = append(inconclusive, fmt.Sprintf("%s: translator validation could not run: %s", h.Func, m))
+				}
+			}
+		}
 		hruns = append(hruns, hr)
 	}
 	note := ""
@@ -444,10 +485,24 @@ type replayOutcome struct {
 }
 
 type harnessRun struct {
-	Spec    harnessSpec
-	Tier    tierSpec
-	Res     *symgo.Result
-	Replays []replayOutcome
+	Spec       harnessSpec
+	Tier       tierSpec
+	Res        *symgo.Result
+	Replays    []replayOutcome
+	Validation *validationResult
+}
+
+// validationRuns is the number of random concrete scripts per harness (VERIF_VALIDATE overrides; 0 disables).
+func validationRuns(tier string) int {
+	if v := os.Getenv("VERIF_VALIDATE"); v != "" {
+		n := 0
+		fmt.Sscanf(v, "%d", &n)
+		return n
+	}
+	if tier == "thorough" {
+		return 32
+	}
+	return 6
 }
 
 func sanitizeFile(s string) string {
@@ -491,18 +546,23 @@ func writeEvidence(id, tier string, seed int, spec checkSpec, runs []harnessRun,
 		MapOrder    bool            `json:"map_iteration_orders_explored,omitempty"`
 		Threads     int             `json:"threads,omitempty"`
 		Switches    *int            `json:"preemption_bound,omitempty"`
+		Validation  *validationResult `json:"translator_validation,omitempty"`
 	}
 	cov := map[string]interface{}{}
 	var hevs []hEv
 	totalPaths, totalNontrivial, obl, dis := 0, 0, 0, 0
 	var samples []interface{}
+	validated := 0
 	for _, r := range runs {
 		res := r.Res
 		h := hEv{Harness: r.Spec.Pkg + "." + r.Spec.Func, About: r.Spec.About, Bounds: r.Tier.Bounds, Paths: res.Paths, Completed: res.Completed,
 			Pruned: res.Pruned, Obligations: res.Obligations, Discharged: res.Discharged,
 			Queries: map[string]int{"sat": res.Solver.Sat, "unsat": res.Solver.Unsat, "unknown": res.Solver.Unknown, "error": res.Solver.Errors},
 			SolverS: res.Solver.Time.Seconds(), WallS: res.WallSeconds, Steps: res.Steps, MaxDepth: res.MaxDepth, Exhausted: res.Exhausted,
-			Reached: res.Reached, Funcs: res.Funcs, Replays: r.Replays, MapOrder: r.Spec.MapOrder, Threads: r.Spec.Threads, Switches: r.Spec.Switches}
+			Reached: res.Reached, Funcs: res.Funcs, Replays: r.Replays, MapOrder: r.Spec.MapOrder, Threads: r.Spec.Threads, Switches: r.Spec.Switches, Validation: r.Validation}
+		if r.Validation != nil {
+			validated += r.Validation.Agree
+		}
 		if len(res.Unsupported) > 0 {
 			h.Inconcl = res.Unsupported
 		}
@@ -550,6 +610,8 @@ func writeEvidence(id, tier string, seed int, spec checkSpec, runs []harnessRun,
 	if e != nil {
 		cov["load_s"] = e.LoadSeconds
 	}
+	cov["translator_validation"] = map[string]interface{}{"concrete_scripts_agreeing_engine_vs_native": validated,
+		"what": "random concrete draw scripts executed by the engine (concrete mode, no solver) and by the native build of the same harness; failed assertions, reached labels and panics must agree"}
 	if evidenceCross != nil {
 		cov["cross_solver_recheck"] = evidenceCross
 	}
